@@ -242,6 +242,14 @@ def run_limit(sh, case, driver='limit'):
             attach.count('C18:limit_signal_limit_on_an_end_of_the_axis')
         except Exception as e:
             vs.append({'mechanism': 'limit_signal:' + attach.exc_mechanism(e), 'message': 'limit_signal raised %r for start=%r stop=%r' % (e, a2, b2)})
+    # a window that begins after the last sample (the next epoch of a recording that ended early): no sample has start <= t
+    for (a2, b2) in ((n / fs, None), ((n + 5) / fs, None), (n / fs, (n + 9) / fs), (float(times[-1]) + 0.5 / fs, None)):
+        try:
+            with quiet():
+                limit_signal(times, sig, start=a2, stop=b2)
+            attach.count('C18:limit_signal_window_after_the_last_sample')
+        except Exception as e:
+            vs.append({'mechanism': 'limit_signal:' + attach.exc_mechanism(e), 'message': 'limit_signal raised %r for start=%r stop=%r' % (e, a2, b2)})
     for (a2, b2) in ((0, None), (0, 0.5 * (n / fs - t0)), (None, 0), (0.0, None), (None, 0.0), (0, 0)):
         try:
             with quiet():
@@ -311,6 +319,10 @@ def run_flatten(sh, case, driver='flatten'):
         out_row = []
         for t in row:
             t = t.copy()
+            if case.get('stale_column') and li % 2 == 0:
+                # the table already carries a column of that name (it came out of an earlier grouping): this call's label replaces it
+                t[case.get('column_name', 'Label')] = 'stale'
+                attach.count('C18:flatten_table_that_already_has_the_label_column')
             t['__uid'] = np.arange(uid, uid + len(t))
             for u in range(uid, uid + len(t)):
                 flat_expected.append((u, flat_labels[li]))
@@ -353,6 +365,8 @@ def run_flatten(sh, case, driver='flatten'):
             # values unchanged
             src = pd.concat([t for row in out_nested for t in row], axis=0)
             for c in src.columns:
+                if c == name:
+                    continue
                 x, y = src[c].to_numpy(), res[c].to_numpy()
                 if not (np.array_equal(x, y, equal_nan=True) if x.dtype.kind == 'f' else np.array_equal(x, y)):
                     vs.append({'mechanism': 'flatten_dfs:value-changed', 'message': 'column %s' % c})
@@ -378,6 +392,26 @@ def run_flatten(sh, case, driver='flatten'):
                            'message': 'second call on the same tables: row %d carries %r, the label given in this call is %r' % (i, got2[i][1], exp2[i][1])})
         except Exception as e:
             vs.append({'mechanism': 'flatten_dfs:' + attach.exc_mechanism(e), 'message': 'second flatten_dfs call on the same tables raised %r' % (e,)})
+    if res is not None and not vs and not two_d and len(flat_labels) >= 2 and len(arg[0]):
+        # one table OBJECT listed at two positions under different labels (the same recording under two condition names): every row of the
+        # result carries the label of the position it came from
+        lst, labs = [arg[0], arg[1], arg[0]], ['first', 'other', 'again']
+        try:
+            with quiet():
+                res3 = flatten_dfs(lst, labs if case.get('labels_as') == 'list' else np.array(labs))
+            attach.count('C18:flatten_one_table_object_at_two_positions')
+            exp3 = []
+            for t, l in zip(lst, labs):
+                exp3 += [(int(u), l) for u in t['__uid'].to_numpy().tolist()]
+            got3 = list(zip(res3['__uid'].to_numpy().tolist(), res3['Label'].to_numpy().tolist())) if len(res3) else []
+            if [g[0] for g in got3] != [e_[0] for e_ in exp3]:
+                vs.append({'mechanism': 'flatten_dfs:order-or-rows', 'message': 'list with one table object at two positions: row provenance differs'})
+            elif [str(g[1]) for g in got3] != [str(e_[1]) for e_ in exp3]:
+                i = [str(g[1]) == str(e_[1]) for g, e_ in zip(got3, exp3)].index(False)
+                vs.append({'mechanism': 'flatten_dfs:label-of-another-position',
+                           'message': 'list [a, b, a] with labels %s: row %d carries %r, its position is labelled %r' % (labs, i, got3[i][1], exp3[i][1])})
+        except Exception as e:
+            vs.append({'mechanism': 'flatten_dfs:' + attach.exc_mechanism(e), 'message': 'flatten_dfs([a, b, a], ...) raised %r' % (e,)})
     for v in vs:
         sh.violate({k: case[k] for k in case if k != 'tables'} | {'n_tables': len(flat_labels)}, v, driver)
 
@@ -458,6 +492,7 @@ def run(sh):
                 sh.note('flatten:repeated_labels')
             c3 = {'tables': tabs, 'labels': labels, 'two_d': False, 'labels_as': str(rng.choice(['list', 'array'])),
                   'column_name': 'Label' if rng.random() < 0.6 else 'Epoch'}
+        c3['stale_column'] = bool(rng.random() < 0.35)
         run_flatten(sh, c3)
         sh.note('flatten:%s' % ('2d' if two_d else '1d'))
         if c3.get('column_name', 'Label') != 'Label':
